@@ -83,6 +83,14 @@ class AccessMixin(object):
       if attr in ('encode', 'startswith', 'endswith', 'lower'):
         yield st, VBound('method', attr, recv=V(STR, base.t))    # used as text
         return
+      # a method under contract on exactly one class: the code has narrowed the value to that class
+      cands = [(n, f) for n, f in self.reg.functions.items() if f.cls and n == '%s.%s' % (f.cls, attr) and not f.ghost_fn]
+      if len(cands) == 1:
+        n, f = cands[0]
+        fnode = self.src.module(f.file).find(f.path)
+        fn = VFunc(fnode, self.src.module(f.file), f.cls, None, n)
+        yield st, VBound('repo', attr, recv=V(Ty('ref', (), f.cls), base.t), func=fn, cls=f.cls)
+        return
     if ty.k != 'ref':
       raise Unsupported('attribute %s of %r (line %s)' % (attr, base, getattr(node, 'lineno', '?')))
     # None dereference
@@ -334,6 +342,10 @@ class AccessMixin(object):
         else:
           yield o[0], self.load_field(o[0], base.t, base.ty.name, f)
       return
+    if k == 'any':       # element of an opaque sequence
+      f = z3.Function('item_of', I, I, I)
+      yield st, V(ANY, f(base.t, coerce(idx, ANY) if idx.ty.k != 'int' else idx.t))
+      return
     raise Unsupported('subscript of %r (line %s)' % (base, getattr(node, 'lineno', '?')))
 
   def dq_get(self, st, dq, pos):
@@ -362,6 +374,9 @@ class AccessMixin(object):
       names = self.reg.classes[base.ty.name].listlike[:sl.upper.value]
       items = [self.load_field(st, base.t, base.ty.name, f) for f in names]
       yield st, V(Ty('tuple', [i.ty for i in items]), items=items)
+      return
+    if isinstance(base, V) and base.ty.k == 'any':
+      yield st, self.fresh_val(st, ANY, 'slice')      # a slice of an opaque sequence
       return
     if not (isinstance(base, V) and base.ty.k == 'list') or sl.step is not None:
       raise Unsupported('slice of %r (line %s)' % (base, getattr(node, 'lineno', '?')))
@@ -449,6 +464,43 @@ class AccessMixin(object):
       yield st, V(INT, f(args[0].t), py=('sum', args[0]))
     elif name == 'hash':
       yield st, V(INT, self.py_hash(st, cx, args[0]))
+    elif name in ('getattr', 'hasattr') and len(args) >= 2:
+      obj, nm = args[0], args[1]
+      default = args[2] if len(args) > 2 else None
+      if isinstance(obj, V) and obj.ty.k == 'ref' and isinstance(nm, V) and nm.ty.k == 'str' and isinstance(nm.py, str):
+        attr = nm.py
+        owner, fty = self.field_decl(obj.ty.name, attr)
+        exists = None
+        for c in self.mro(obj.ty.name):
+          ci = self.class_info(c)
+          if attr in ci.maybe_attrs:
+            exists = self.load_field(st, obj.t, obj.ty.name, ci.maybe_attrs[attr]).t
+        if owner is not None:
+          val = self.load_field(st, obj.t, obj.ty.name, attr)
+          if name == 'hasattr':
+            yield st, V(BOOL, exists if exists is not None else z3.BoolVal(True))
+          elif exists is None:
+            yield st, val
+          elif default is None:
+            for o in self.oblige_or_raise(st, cx, exists, 'AttributeError', node, 'getattr of a missing attribute %s' % attr):
+              yield (o[0], o[1]) if isinstance(o[1], Exc) else (o[0], val)
+          else:
+            yield st, self.merge_vals(exists, val, default)
+          continue_ = True
+        else:
+          if name == 'hasattr':
+            yield st, mk_bool(False)
+          elif default is not None:
+            yield st, default
+          else:
+            for o in self.oblige_or_raise(st, cx, z3.BoolVal(False), 'AttributeError', node, 'no attribute %s' % attr):
+              yield o
+      else:
+        # reflective access with a computed name / on an opaque object: an opaque result
+        if name == 'hasattr':
+          yield st, self.fresh_val(st, BOOL, 'hasattr')
+        else:
+          yield st, self.fresh_val(st, ANY, 'getattr')
     elif name == 'isinstance':
       yield st, V(BOOL, self.isinstance_(st, args[0], args[1]))
     elif name == 'callable':
